@@ -39,7 +39,7 @@ for f in json.load(open("/verif/KNOWN_FINDINGS.json"))["findings"]:
         rows.append([fid, prop, c, "revert does not apply cleanly (later fix touches the same lines)"])
         continue
     shutil.rmtree("/tmp/regress_replays", ignore_errors=True)
-    env = dict(os.environ, VERIF_PGMPY_PATH=W, VERIF_REPLAY_DIR="/tmp/regress_replays")
+    env = dict(os.environ, VERIF_PGMPY_PATH=W, VERIF_REPLAY_DIR="/tmp/regress_replays", VERIF_EVIDENCE_DIR="/tmp/mutevidence")
     p = subprocess.run(["./check", prop, "quick"], cwd="/verif", env=env, capture_output=True, text=True, timeout=3600)
     n = sum(1 for l in p.stdout.splitlines() if l.startswith("VIOLATION"))
     fs = sorted(glob.glob(f"/tmp/regress_replays/{prop}/*.json"))
